@@ -298,6 +298,9 @@ func genC02(t *rapid.T, cfg *core.Config) *core.Case {
 	}
 	g := core.NewGen(t, spec, rapid.IntRange(3, fuel).Draw(t, "fuel"), cfg.Excl)
 	g.Calls = rapid.IntRange(0, 9).Draw(t, "calls") < 3
+	if rapid.IntRange(0, 2).Draw(t, "zoo") == 0 {
+		g.Zoo = rapid.IntRange(5, 40).Draw(t, "zoo%")
+	}
 	g.Big = rapid.IntRange(0, 39).Draw(t, "big") == 0
 	mode := rapid.SampledFrom([]string{"typed", "typed", "typed", "untyped"}).Draw(t, "mode")
 	g.AllDynamic = mode == "untyped"
